@@ -47,3 +47,15 @@ pub fn decode(table: &[F], v: V, payload: &[u8]) -> Vec<u64> {
 pub fn size(table: &[F], hdr: usize, v: V) -> usize {
     table.iter().filter(|x| gte(v, x.since.0, x.since.1)).map(|x| x.off + x.ty.width()).max().unwrap_or(hdr)
 }
+
+/// the Arrow schema the per-version field table prescribes, as leaf paths (C14): id; ports.P<n>.leader/follower.pre/post;
+/// start (>= 2.2); end (>= 3.7: before that the struct has no field); item list (>= 3.0)
+pub fn arrow_leaves(v: V, slots: &[(u8, bool)]) -> Vec<String> {
+    let ty = |t: Ty| match t { Ty::U8 => "u8", Ty::I8 => "i8", Ty::U16 => "u16", Ty::U32 => "u32", Ty::I32 => "i32", Ty::F32 => "f32" };
+    let mut out = vec!["id:i32".to_string()];
+    let mut tab = |prefix: &str, table: &[F], out: &mut Vec<String>| for f in table.iter().filter(|f| gte(v, f.since.0, f.since.1)) { out.push(format!("{}.{}:{}", prefix, f.name, ty(f.ty))); };
+    for (port, fol) in slots { let who = if *fol { "follower" } else { "leader" }; tab(&format!("ports.P{}.{}.pre", port + 1, who), PRE, &mut out); tab(&format!("ports.P{}.{}.post", port + 1, who), POST, &mut out); }
+    if gte(v, 2, 2) { tab("start", START, &mut out); }
+    if gte(v, 3, 0) { tab("end", END, &mut out); tab("item[]", ITEM, &mut out); }
+    out
+}
